@@ -20,6 +20,7 @@ import (
 	"path/filepath"
 	"runtime"
 	"sort"
+	"strconv"
 	"strings"
 	"testing"
 	"time"
@@ -47,9 +48,12 @@ type c16Op struct {
 	D    int    `json:"d"`
 	Ms   int    `json:"ms"`
 	Fail bool   `json:"fail"`
-	X    int    `json:"x"`
-	Xs   []int  `json:"xs"`
 	Stop int    `json:"stop"`
+	// Set histories: typed elements, the typed projection asked for, the add entry point
+	X   c16El   `json:"x"`
+	Xs  []c16El `json:"xs"`
+	T   string  `json:"t"`
+	Api string  `json:"api"`
 }
 
 type c16Hist struct {
@@ -61,6 +65,11 @@ type c16Hist struct {
 	Def   int     `json:"def"`
 	N     int     `json:"n"`
 	Ops   []c16Op `json:"ops"`
+	// Set: "managed" / "unmanaged", and the universe of the generating configuration
+	Kind  string   `json:"kind"`
+	Types []string `json:"types"`
+	Vals  []int    `json:"vals"`
+	Obs   string   `json:"obs"` // "all": observe after every operation, "last": after the last one
 }
 
 // c16Int converts a value handed back by the library; anything that is not the int the
@@ -117,13 +126,6 @@ func c16PanicInLibrary() bool {
 			return false
 		}
 	}
-}
-
-func c16Ints(xs []int) []int {
-	if xs == nil {
-		return []int{}
-	}
-	return xs
 }
 
 // ------------------------------------------------------------------ RollingWindow
@@ -747,138 +749,220 @@ func c16RandomRings(em *verifEmitter, rnd *rand.Rand, histories, length int) {
 
 // ------------------------------------------------------------------ Set
 
-// c16SetKinds: the element type used for a history (the model's elements are 1, 2, 3, ...).
-var c16SetKinds = []string{"int", "int64", "uint", "uint64", "str", "any"}
-
-func c16Elem(kind string, x int) any {
-	switch kind {
-	case "int64":
-		return int64(x)
-	case "uint":
-		return uint(x)
-	case "uint64":
-		return uint64(x)
-	case "str":
-		return fmt.Sprintf("e%d", x)
-	case "any": // unmanaged set: mixed dynamic types, still one Go value per model element
-		switch x % 3 {
-		case 0:
-			return fmt.Sprintf("e%d", x)
-		case 1:
-			return int64(x)
-		}
-		return x
-	}
-	return x
+// A set element of the model is a typed value {t, v}: type tag + small number.  The Go
+// value is the number in that dynamic type, so int 1, int64 1, uint 1, uint64 1, "1" and
+// int32 1 are six different elements (different keys of the Set's map[any]).
+// int, i64, uint, u64, str are the kinds a managed Set knows; oth (int32) is a type it does
+// not know.
+type c16El struct {
+	T string `json:"t"`
+	V int    `json:"v"`
 }
 
-func c16Set(em *verifEmitter, drv string, kind string, ops []c16Op, universe int, observeAll bool) {
+var c16SetTypes = []string{"int", "i64", "uint", "u64", "str", "oth"}
+var c16SetManaged = c16SetTypes[:5]
+
+func c16Elem(e c16El) any {
+	switch e.T {
+	case "int":
+		return e.V
+	case "i64":
+		return int64(e.V)
+	case "uint":
+		return uint(e.V)
+	case "u64":
+		return uint64(e.V)
+	case "str":
+		return strconv.Itoa(e.V)
+	case "oth":
+		return int32(e.V)
+	}
+	panic("c16 set: unknown element type " + e.T)
+}
+
+// c16ElOf: what the library handed back, as a model element; anything the driver never
+// stored is logged as {"?", -1} (never a driver panic).
+func c16ElOf(v any) c16El {
+	switch x := v.(type) {
+	case int:
+		return c16El{"int", x}
+	case int64:
+		return c16El{"i64", int(x)}
+	case uint:
+		return c16El{"uint", int(x)}
+	case uint64:
+		return c16El{"u64", int(x)}
+	case string:
+		return c16El{"str", c16Atoi(x)}
+	case int32:
+		return c16El{"oth", int(x)}
+	}
+	return c16El{"?", -1}
+}
+
+func c16Atoi(s string) int {
+	n, err := strconv.Atoi(s)
+	if err != nil {
+		return -1
+	}
+	return n
+}
+
+func c16Els(xs []c16El) []c16El {
+	if xs == nil {
+		return []c16El{}
+	}
+	return xs
+}
+
+// c16SetAdd performs one variadic add.  api "typed": through AddInt/AddInt64/AddUint/
+// AddUint64/AddStr (all arguments are of that one kind); otherwise through Add(...any).
+func c16SetAdd(s *Set, api string, xs []c16El) {
+	if api == "typed" {
+		switch xs[0].T {
+		case "int":
+			var a []int
+			for _, x := range xs {
+				a = append(a, x.V)
+			}
+			s.AddInt(a...)
+			return
+		case "i64":
+			var a []int64
+			for _, x := range xs {
+				a = append(a, int64(x.V))
+			}
+			s.AddInt64(a...)
+			return
+		case "uint":
+			var a []uint
+			for _, x := range xs {
+				a = append(a, uint(x.V))
+			}
+			s.AddUint(a...)
+			return
+		case "u64":
+			var a []uint64
+			for _, x := range xs {
+				a = append(a, uint64(x.V))
+			}
+			s.AddUint64(a...)
+			return
+		case "str":
+			var a []string
+			for _, x := range xs {
+				a = append(a, strconv.Itoa(x.V))
+			}
+			s.AddStr(a...)
+			return
+		}
+	}
+	var a []any
+	for _, x := range xs {
+		a = append(a, c16Elem(x))
+	}
+	s.Add(a...)
+}
+
+// c16SetApi: which entry point an add goes through.  The typed ones exist only for
+// arguments of one managed kind; for those the choice is the caller's (seeded).
+func c16SetApi(rnd *rand.Rand, xs []c16El) string {
+	for _, x := range xs {
+		if x.T != xs[0].T || x.T == "oth" {
+			return "any"
+		}
+	}
+	if rnd.Intn(3) == 0 {
+		return "any"
+	}
+	return "typed"
+}
+
+func c16SetKeysOf(s *Set, t string) []int {
+	ks := []int{}
+	switch t {
+	case "int":
+		for _, k := range s.KeysInt() {
+			ks = append(ks, k)
+		}
+	case "i64":
+		for _, k := range s.KeysInt64() {
+			ks = append(ks, int(k))
+		}
+	case "uint":
+		for _, k := range s.KeysUint() {
+			ks = append(ks, int(k))
+		}
+	case "u64":
+		for _, k := range s.KeysUint64() {
+			ks = append(ks, int(k))
+		}
+	case "str":
+		for _, k := range s.KeysStr() {
+			ks = append(ks, c16Atoi(k))
+		}
+	default:
+		panic("c16 set: no typed Keys for " + t)
+	}
+	return ks
+}
+
+// c16Set runs one history on a managed (NewSet) or unmanaged (NewUnmanagedSet) Set.
+// universe: the elements Contains is asked about when observing.
+func c16Set(em *verifEmitter, drv string, kind string, ops []c16Op, universe []c16El, observeAll bool) {
 	c16Guard(em, "set", func() { c16SetRun(em, drv, kind, ops, universe, observeAll) })
 }
 
-func c16SetRun(em *verifEmitter, drv string, kind string, ops []c16Op, universe int, observeAll bool) {
+func c16SetRun(em *verifEmitter, drv string, kind string, ops []c16Op, universe []c16El, observeAll bool) {
 	var s *Set
-	if kind == "any" {
+	switch kind {
+	case "unmanaged":
 		s = NewUnmanagedSet()
-	} else {
+	case "managed":
 		s = NewSet()
+	default:
+		panic("c16 set: unknown kind " + kind)
 	}
 	em.Emit(verifEv{"e": "reset", "obj": "set", "drv": drv, "kind": kind})
 	keys := func() {
-		ks := []int{}
-		switch kind {
-		case "int":
-			for _, k := range s.KeysInt() {
-				ks = append(ks, k)
-			}
-		case "int64":
-			for _, k := range s.KeysInt64() {
-				ks = append(ks, int(k))
-			}
-		case "uint":
-			for _, k := range s.KeysUint() {
-				ks = append(ks, int(k))
-			}
-		case "uint64":
-			for _, k := range s.KeysUint64() {
-				ks = append(ks, int(k))
-			}
-		case "str":
-			for _, k := range s.KeysStr() {
-				var x int
-				fmt.Sscanf(k, "e%d", &x)
-				ks = append(ks, x)
-			}
-		default:
-			for _, k := range s.Keys() {
-				switch kv := k.(type) {
-				case int:
-					ks = append(ks, kv)
-				case int64:
-					ks = append(ks, int(kv))
-				case string:
-					var x int
-					fmt.Sscanf(kv, "e%d", &x)
-					ks = append(ks, x)
-				}
-			}
+		ks := []c16El{}
+		for _, k := range s.Keys() {
+			ks = append(ks, c16ElOf(k))
 		}
 		em.Emit(verifEv{"e": "s.keys", "keys": ks})
+	}
+	keysOf := func(t string) {
+		em.Emit(verifEv{"e": "s.keysof", "t": t, "keys": c16SetKeysOf(s, t)})
+	}
+	contains := func(x c16El) {
+		em.Emit(verifEv{"e": "s.contains", "x": x, "yes": s.Contains(c16Elem(x))})
 	}
 	observe := func() {
 		em.Emit(verifEv{"e": "s.count", "n": s.Count()})
 		keys()
-		for x := 1; x <= universe; x++ {
-			em.Emit(verifEv{"e": "s.contains", "x": x, "yes": s.Contains(c16Elem(kind, x))})
+		for _, t := range c16SetManaged {
+			keysOf(t)
+		}
+		for _, x := range universe {
+			contains(x)
 		}
 	}
 	for _, op := range ops {
 		switch op.Op {
 		case "add":
-			switch kind {
-			case "int":
-				s.AddInt(op.Xs...)
-			case "int64":
-				var a []int64
-				for _, x := range op.Xs {
-					a = append(a, int64(x))
-				}
-				s.AddInt64(a...)
-			case "uint":
-				var a []uint
-				for _, x := range op.Xs {
-					a = append(a, uint(x))
-				}
-				s.AddUint(a...)
-			case "uint64":
-				var a []uint64
-				for _, x := range op.Xs {
-					a = append(a, uint64(x))
-				}
-				s.AddUint64(a...)
-			case "str":
-				var a []string
-				for _, x := range op.Xs {
-					a = append(a, fmt.Sprintf("e%d", x))
-				}
-				s.AddStr(a...)
-			default:
-				var a []any
-				for _, x := range op.Xs {
-					a = append(a, c16Elem(kind, x))
-				}
-				s.Add(a...)
-			}
-			em.Emit(verifEv{"e": "s.add", "xs": c16Ints(op.Xs)})
+			c16SetAdd(s, op.Api, op.Xs)
+			em.Emit(verifEv{"e": "s.add", "xs": c16Els(op.Xs), "api": op.Api})
 		case "remove":
-			s.Remove(c16Elem(kind, op.X))
+			s.Remove(c16Elem(op.X))
 			em.Emit(verifEv{"e": "s.remove", "x": op.X})
 		case "contains":
-			em.Emit(verifEv{"e": "s.contains", "x": op.X, "yes": s.Contains(c16Elem(kind, op.X))})
+			contains(op.X)
 		case "count":
 			em.Emit(verifEv{"e": "s.count", "n": s.Count()})
 		case "keys":
 			keys()
+		case "keysof":
+			keysOf(op.T)
 		default:
 			panic("c16 set: unknown op " + op.Op)
 		}
@@ -886,35 +970,62 @@ func c16SetRun(em *verifEmitter, drv string, kind string, ops []c16Op, universe 
 			observe()
 		}
 	}
-	observe()
+	if !observeAll || len(ops) == 0 {
+		observe()
+	}
 }
 
+// c16RandomSets: managed and unmanaged sets over 1..6 element types (one type: the
+// homogeneous use the type bookkeeping is meant for; several: a managed set that logs and
+// keeps going) and 1..12 values; now and then an argument of a type outside the universe.
 func c16RandomSets(em *verifEmitter, rnd *rand.Rand, histories, length int) {
 	for h := 0; h < histories; h++ {
-		kind := c16SetKinds[rnd.Intn(len(c16SetKinds))]
-		u := 1 + rnd.Intn(12)
+		kind := "managed"
+		if rnd.Intn(4) == 0 {
+			kind = "unmanaged"
+		}
+		nt := []int{1, 1, 1, 2, 2, 3, 4, 6}[rnd.Intn(8)]
+		perm := rnd.Perm(len(c16SetTypes))
+		var types []string
+		for _, i := range perm[:nt] {
+			types = append(types, c16SetTypes[i])
+		}
+		u := 1 + rnd.Intn(12/nt)
+		var universe []c16El
+		for _, t := range types {
+			for v := 1; v <= u; v++ {
+				universe = append(universe, c16El{t, v})
+			}
+		}
+		el := func() c16El {
+			if rnd.Intn(12) == 0 {
+				return c16El{c16SetTypes[rnd.Intn(len(c16SetTypes))], 1 + rnd.Intn(u)}
+			}
+			return universe[rnd.Intn(len(universe))]
+		}
 		var ops []c16Op
 		n := 5 + rnd.Intn(length)
 		for i := 0; i < n; i++ {
-			x := 1 + rnd.Intn(u)
 			switch r := rnd.Intn(100); {
 			case r < 35:
-				xs := []int{x}
+				xs := []c16El{el()}
 				for rnd.Intn(3) == 0 {
-					xs = append(xs, 1+rnd.Intn(u))
+					xs = append(xs, el())
 				}
-				ops = append(ops, c16Op{Op: "add", Xs: xs})
-			case r < 60:
-				ops = append(ops, c16Op{Op: "remove", X: x})
-			case r < 80:
-				ops = append(ops, c16Op{Op: "contains", X: x})
-			case r < 90:
+				ops = append(ops, c16Op{Op: "add", Xs: xs, Api: c16SetApi(rnd, xs)})
+			case r < 58:
+				ops = append(ops, c16Op{Op: "remove", X: el()})
+			case r < 78:
+				ops = append(ops, c16Op{Op: "contains", X: el()})
+			case r < 86:
 				ops = append(ops, c16Op{Op: "count"})
-			default:
+			case r < 93:
 				ops = append(ops, c16Op{Op: "keys"})
+			default:
+				ops = append(ops, c16Op{Op: "keysof", T: c16SetManaged[rnd.Intn(len(c16SetManaged))]})
 			}
 		}
-		c16Set(em, "random", kind, ops, u, false)
+		c16Set(em, "random", kind, ops, universe, false)
 	}
 }
 
@@ -927,7 +1038,7 @@ func TestVerifC16Replay(t *testing.T) {
 	defer em.Close()
 	logx.Disable()
 	rnd := verifRand(1601)
-	for i, raw := range verifInput(t) {
+	for _, raw := range verifInput(t) {
 		var h c16Hist
 		if err := json.Unmarshal(raw, &h); err != nil {
 			t.Fatal(err)
@@ -943,7 +1054,18 @@ func TestVerifC16Replay(t *testing.T) {
 		case "ring":
 			c16Ring(em, "replay", h.N, h.Ops, true)
 		case "set":
-			c16Set(em, "replay", c16SetKinds[i%len(c16SetKinds)], h.Ops, 3, true)
+			var universe []c16El
+			for _, tp := range h.Types {
+				for _, v := range h.Vals {
+					universe = append(universe, c16El{tp, v})
+				}
+			}
+			for j := range h.Ops {
+				if h.Ops[j].Op == "add" {
+					h.Ops[j].Api = c16SetApi(rnd, h.Ops[j].Xs)
+				}
+			}
+			c16Set(em, "replay", h.Kind, h.Ops, universe, h.Obs != "last")
 		default:
 			t.Fatalf("c16 replay: unknown object %q", h.Obj)
 		}
